@@ -408,6 +408,21 @@ func (m *Machine) poison() {
 	for _, p := range ev.BuffQ() {
 		poisonPoly(p)
 	}
+	// the evaluator's own encoder has encoded something else before (its reusable buffers hold another vector)
+	if ev.Encoder != nil {
+		junk := make([]complex128, m.n)
+		for i := range junk {
+			junk[i] = complex(float64(i%7)-3.25, float64(i%5)-1.75)
+		}
+		if m.isReal() {
+			for i := range junk {
+				junk[i] = complex(real(junk[i]), 0)
+			}
+		}
+		pt := ckks.NewPlaintext(m.p, 0)
+		pt.LogDimensions = m.logDims()
+		_ = ev.Encoder.Encode(junk, pt)
+	}
 	b := ev.Evaluator.EvaluatorBuffers
 	if b != nil {
 		for i := range b.BuffQP {
